@@ -73,8 +73,8 @@ check(
           "65534..65537) distinct values and strings to the 16383/16384 varint boundary."),
     quick=[unit("codec", "^TestC01", checks=2500, timeout=900),
            unit("codec", "^TestC01", variant="purego", checks=2500, timeout=900)],
-    thorough=[unit("codec", "^TestC01Block", checks=25000, timeout=6000, shards=8),
-              unit("codec", "^TestC01Block", variant="purego", checks=25000, timeout=6000, shards=4),
+    thorough=[unit("codec", "^TestC01Block", checks=80000, timeout=6000, shards=8),
+              unit("codec", "^TestC01Block", variant="purego", checks=80000, timeout=6000, shards=4),
               unit("codec", "^TestC01(LargeDictionaries|BigStrings)", checks=600, timeout=6000, shards=2),
               unit("codec", "^TestC01(LargeDictionaries|BigStrings)", variant="purego", checks=600, timeout=6000, shards=2)],
     manifest=dict(
